@@ -22,8 +22,9 @@ instantiates it with what the running interpreter answers for the characters in
 play).
 
 `dollarQuoteLiteral` is a `while` loop in Python; here it runs on fuel
-`text.length + 2` and returns `none` when the fuel runs out (it never does:
-each rejected tag occupies its own position in the text).
+`text.length + 2` and returns `none` when the fuel runs out; it never does
+(`Lemmas/QuoteDollarTotal.lean`: each rejected tag occupies its own `$`
+position of the text).
 -/
 import EdbVerif.Model.Lex
 import EdbVerif.Gen.PgKeywords
@@ -256,5 +257,32 @@ def byteaCast : List Char := [':', ':', 'b', 'y', 't', 'e', 'a']
 def pgQuoteBytea (b : List UInt8) : List Char :=
   if b.isEmpty then '\'' :: '\'' :: byteaCast
   else '\'' :: '\\' :: 'x' :: b.flatMap (fun x => hex2 x.toNat) ++ '\'' :: byteaCast
+
+/-! ### long names: `edgedb_name_to_pg_name` -/
+
+/-- `s_def.MAX_NAME_LENGTH` = 63 - MAX_TENANT_ID_LENGTH (10) - 1 - 1 -/
+def maxNameLength : Nat := 51
+
+/-- `name[-k:]` for `k > 0` -/
+def lastN (k : Nat) (l : List Char) : List Char := l.drop (l.length - k)
+
+/-- `_edgedb_name_to_pg_name(name, prefix_length)`; `hashed` is
+    `base64(md5(name)).rstrip('=')` (22 characters), computed outside the model.
+    The slice `name[-(MAX - prefix_length - 1 - len(hashed)):]` is written out for
+    the three signs of its bound (a zero bound gives the WHOLE name, a negative
+    one drops a prefix — only reachable with `prefix_length ≥ 28`, which no
+    caller in the repository uses). -/
+def pgNameHashed (hashed name : List Char) (pl : Nat) : List Char :=
+  let a := pl + 1 + hashed.length
+  name.take pl ++ hashed ++ [':'] ++
+    (if a < maxNameLength then lastN (maxNameLength - a) name else name.drop (a - maxNameLength))
+
+/-- `edgedb_name_to_pg_name(name, prefix_length)`; `none` = `ValueError`.
+    `len(name)` counts code points. -/
+def edgedbNameToPgName (hash : List Char → List Char) (name : List Char) (pl : Nat) :
+    Option (List Char) :=
+  if maxNameLength ≤ pl then none
+  else if name.length ≤ maxNameLength - pl then some name
+  else some (pgNameHashed (hash name) name pl)
 
 end EdbVerif.Quote
